@@ -696,7 +696,9 @@ class C45(Prop):
             "fresh objects, single-leaf mutations of one datum (domain-size-only, shift-only, shape-"
             "only, one index, one sparse entry, storage type, name, domain list order, KIND of domain "
             "only - subdomain / interface / boundary grid with coinciding ids), Scalar.set_value "
-            "histories, swapped "
+            "histories, domain ORDER only for every leaf kind with a domain list, sparse leaves in "
+            "csr/csc/coo/bsr/dia (matrix and array) differing ONLY in shape (empty trailing rows / "
+            "columns, identical stored arrays), swapped "
             "children, changed operation, independent pairs, index arrays > 1000 entries differing in "
             "the middle, function nodes (known-finding region); non-trivial = the two trees differ "
             "or have more than one node")
@@ -718,10 +720,10 @@ class C45(Prop):
                 yield {"kind": "big-index", "t1": {"k": "bin", "op": "matmul", "a": a, "b": ctx},
                        "t2": {"k": "bin", "op": "matmul", "a": b, "b": ctx}}
                 continue
-            if nbig + 21 <= c < nbig + 21 + 2 * len(SPARSE_TYPES):
+            if nbig + 26 <= c < nbig + 26 + 2 * len(SPARSE_TYPES):
                 # sparse leaves in every storage format that differ ONLY in shape: empty trailing
                 # rows, resp. columns (identical stored arrays for csc, resp. csr)
-                j = c - nbig - 21
+                j = c - nbig - 26
                 fmt, rows = SPARSE_TYPES[j // 2], j % 2 == 0
                 ent = [[0, 0, 1.0], [1, 0, 2.0], [1, 2, -1.0], [3, 1, 0.5]]
                 a = {"k": "sparse", "fmt": fmt, "shape": [4, 4], "entries": ent}
@@ -732,7 +734,7 @@ class C45(Prop):
                             {"k": "bin", "op": "matmul", "a": b, "b": x})
                 yield {"kind": "sparse-shape-only", "t1": a, "t2": b}
                 continue
-            if nbig + 19 <= c < nbig + 21:
+            if nbig + 24 <= c < nbig + 26:
                 # known finding: a composite that was hashed keeps its key when a Scalar below it
                 # is changed with set_value (only the Scalar's own cached key is dropped)
                 x = {"k": "var", "name": "p", "dom": 0}
@@ -740,7 +742,7 @@ class C45(Prop):
                        "t1": {"k": "bin", "op": "mul", "a": {"k": "scalar", "v": 1.0, "set_later": 2.0}, "b": x},
                        "t2": {"k": "bin", "op": "mul", "a": {"k": "scalar", "v": 2.0}, "b": x}}
                 continue
-            if c < nbig + 19:
+            if c < nbig + 24:
                 # directed single-datum mutations of the leaf classes outside operators.py and
                 # of function nodes, inside a random context
                 biot = {"k": "merged", "cls": "BiotAd", "kw": "mechanics", "doms": [0, 1],
@@ -750,7 +752,13 @@ class C45(Prop):
                 x = {"k": "var", "name": "p", "dom": 0}
                 y = {"k": "var", "name": "q", "dom": 1}
                 td = {"k": "tdda", "name": "src", "doms": [0], "dk": "sd"}
+                td2 = {"k": "tdda", "name": "src", "doms": [0, 1], "dk": "sd"}
                 pairs = [
+                    # domain ORDER only: the same grids listed in another order parse to another vector
+                    (td2, dict(td2, doms=[1, 0])), (dict(td2, t=1), dict(td2, doms=[1, 0], t=1)),
+                    (dict(td2, dk="bg"), dict(td2, dk="bg", doms=[1, 0])),
+                    (dict(td2, doms=[0, 2, 3]), dict(td2, doms=[2, 0, 3])),
+                    ({"k": "mdvar", "name": "p", "doms": [0, 2]}, {"k": "mdvar", "name": "p", "doms": [2, 0]}),
                     (td, dict(td, dk="intf")), (td, dict(td, dk="bg")),
                     (dict(td, dk="bg", doms=[1], t=1), dict(td, doms=[1], t=1)),
                     (dict(x, dk="sd"), dict(x, dk="intf")),
